@@ -27,6 +27,7 @@ def _bits_of_interval(iv, width):
 
 
 INEXACT = set()
+UNIT = [32]
 
 
 def _maybits(fa, n, at, width, depth=0):
@@ -100,9 +101,14 @@ def _maybits(fa, n, at, width, depth=0):
     if k == 'DeclRefExpr' and n.get('dk') == 'local' and not _plain_local(fa.fn, n.get('d')):
         INEXACT.add(id(fa))
         fa.__dict__.setdefault('_inexact_marks', set()).add(at['i'])
+    # a bound that is only the range of the C type (uint8_t reg) says nothing about the values stored
+    from nk.interval import type_range, TOP
+    tr = type_range(fa.fn.type(n))
+    if tr != TOP and iv == tr:
+        return ALL
     m = _bits_of_interval(iv, width)
-    # a value that can fill (nearly) the whole word is not a field
-    if m is not ALL and m >= (1 << (width - 1)) - 1:
+    # a value that can fill (nearly) the whole unit is not a field
+    if m is not ALL and m >= (1 << (UNIT[0] - 1)) - 1:
         return ALL
     return m
 
@@ -169,6 +175,23 @@ def field_overlap(prog, floor=400):
                 continue
             word = call_args(c)[1]
             terms = _terms(word)
+            wsx = strip(word, casts=True)
+            if len(terms) < 2 and wsx['k'] == 'DeclRefExpr' and wsx.get('dk') == 'local':
+                # the word was built in a local just before: `opcode = table[n].opcode | a << 10 | b << 13; add_bin16(opcode)`
+                bb = fn.blocks[fn.where[c['i']][0]]
+                acc = []
+                for e in reversed(bb['e'][:fn.where[c['i']][1]]):
+                    x = fn.nodes.get(e)
+                    if x is None:
+                        continue
+                    if x['k'] == 'CompoundAssignOperator' and x.get('op') == '|=' and strip(kids(x)[0]).get('d') == wsx.get('d'):
+                        acc = _terms(kids(x)[1]) + acc
+                    elif x['k'] == 'BinaryOperator' and x.get('op') == '=' and strip(kids(x)[0]).get('d') == wsx.get('d'):
+                        acc = _terms(kids(x)[1]) + acc
+                        terms = acc
+                        break
+                    elif x['k'] in ('CompoundAssignOperator', 'UnaryOperator') and strip(kids(x)[0]).get('d') == wsx.get('d'):
+                        break
             if len(terms) < 2:
                 continue
             if fa is None:
@@ -190,7 +213,8 @@ def field_overlap(prog, floor=400):
                 marks = fa.__dict__.setdefault('_inexact_marks', set())
                 marks.discard(c['i'])
                 before = set(marks)
-                m_ = _maybits(fa, t, c, w)
+                UNIT[0] = w
+                m_ = _maybits(fa, t, c, 64 if w < 32 else w)
                 inexact = bool(marks - before) or c['i'] in marks
                 marks.discard(c['i'])
                 ms.append((t, m_, txt, inexact))
@@ -203,6 +227,15 @@ def field_overlap(prog, floor=400):
                     if m1 & m2:
                         bad = (x1, m1, x2, m2)
             construct = 'emit#%d' % k
+            unit = (1 << w) - 1
+            wide = [(x_, m_) for (_, m_, x_, e_) in ms if m_ is not ALL and not e_ and (m_ & ~unit)]
+            if wide:
+                x_, m_ = wide[0]
+                obs.append(Ob('EMIT-FIT', fn.file, c['l'], fn.q, construct, VIOLATED,
+                              'in `%s` the field `%s` can set bits %#x, beyond the %d-bit unit that %s stores: an accepted operand '
+                              'value loses its high bits (two different operands give the same word)' % (
+                                  show(c)[:60], x_[:40], m_, w, (callee(c) or '').split('(')[0])))
+                continue
             if bad:
                 x1, m1, x2, m2 = bad
                 obs.append(Ob('FIELD-OVERLAP', fn.file, c['l'], fn.q, construct, VIOLATED,
@@ -215,3 +248,63 @@ def field_overlap(prog, floor=400):
     if nemit < floor:
         raise AnalysisBroken('FIELD-OVERLAP: only %d multi-term emissions in asm/' % nemit)
     return RuleResult('FIELD-OVERLAP', obs, floor // 2, {'emissions': nemit})
+
+
+GUARDED_REG_FILES = {
+    # inferred from the code (every one of its 16-bit forms tests the register numbers it encodes) and confirmed by
+    # reading: the Epiphany short forms have 3-bit register fields, a register above r7 must select the 32-bit row
+    'asm/epiphany.cpp': 'a 16-bit Epiphany form holds registers r0..r7 only; a higher register has to fall through to the 32-bit row',
+}
+
+
+def guard_use(prog):
+    """GUARD-USE: in the assemblers listed in GUARDED_REG_FILES every operand register that is inserted into a 16-bit word
+    (`operands[k].reg` in the argument of add_bin16, directly or through the local the word is built in) is tested in a
+    condition that dominates the emission (a comparison, or an argument of a predicate helper called in the condition).
+    Testing operands[0] while encoding operands[1] lets a register above the field width through: add_bin16 cuts the
+    shifted value and two different registers give the same word."""
+    from nk.cfg import dominators
+    obs = []
+    for fn in sorted(prog.fns.values(), key=lambda f: (f.file, f.line)):
+        if not fn.blocks or fn.file not in GUARDED_REG_FILES:
+            continue
+        dom = None
+        k = 0
+        for c in sorted(fn.calls(), key=lambda x: x['i']):
+            if (callee(c) or '').split('(')[0] != 'add_bin16' or len(call_args(c)) < 2 or fn.where.get(c['i']) is None:
+                continue
+            word = call_args(c)[1]
+            nodes = list(walk(word))
+            ws = strip(word, casts=True)
+            if ws['k'] == 'DeclRefExpr':
+                bb = fn.blocks[fn.where[c['i']][0]]
+                for e in reversed(bb['e'][:fn.where[c['i']][1]]):
+                    x = fn.nodes.get(e)
+                    if x is not None and x['k'] in ('BinaryOperator', 'CompoundAssignOperator') and x.get('op') in ('=', '|=') and \
+                            strip(kids(x)[0]).get('d') == ws.get('d'):
+                        nodes += list(walk(kids(x)[1]))
+                        if x['op'] == '=':
+                            break
+            regs = sorted({show(x) for x in nodes if x['k'] == 'MemberExpr' and x.get('n') == 'reg' and 'operands[' in show(x)})
+            if not regs:
+                continue
+            if dom is None:
+                dom = dominators(fn)
+            guarded = set()
+            for d in dom[fn.where[c['i']][0]]:
+                cn = fn.nodes.get(fn.blocks[d].get('cond')) if 'cond' in fn.blocks[d] else None
+                if cn is None:
+                    continue
+                for x in walk(cn):
+                    if x['k'] == 'MemberExpr' and x.get('n') == 'reg':
+                        guarded.add(show(x))
+            for r in regs:
+                k += 1
+                ok = r in guarded
+                obs.append(Ob('GUARD-USE', fn.file, c['l'], fn.q, 'reg#%d:%s' % (k, r), DISCHARGED if ok else VIOLATED,
+                              '' if ok else '`%s` is inserted into the 16-bit word of `%s` but no dominating condition tests it (tested: %s): '
+                              '%s' % (r, show(c)[:50], ', '.join(sorted(guarded)) or 'none', GUARDED_REG_FILES[fn.file]),
+                              'tested in a dominating condition', False))
+    if len(obs) < 2:
+        raise AnalysisBroken('GUARD-USE: only %d register insertions into 16-bit words in %s' % (len(obs), sorted(GUARDED_REG_FILES)))
+    return RuleResult('GUARD-USE', obs, 2, {})
